@@ -661,13 +661,17 @@ do_retrieve(void)
 }
 
 
+/* The last EMIT_THRESH output slots are reserved for the block the reorder
+   step is waiting for.  A block queued in front of it (a mis-recognized
+   candidate) may use them too: it is dropped by the reorder step at once,
+   whereas left in place it would hide the awaited block forever. */
 static bool
 can_emit(void)
 {
   return (!empty(emit_q) &&
           (out_slots > EMIT_THRESH
            || (out_slots > 0 && !empty(order_q)
-               && pos_eq(peek(emit_q)->base, dq_get(order_q, 0).base))));
+               && pos_le(peek(emit_q)->base, dq_get(order_q, 0).base))));
 }
 
 static void
